@@ -506,3 +506,15 @@ package nfsv4
 //@             old(lot.state).lastSeqID == old(lot.seqID) && old(lot.state).lastResponse == lastResponse
 //@   ensures reply-not-recorded: !shouldComplete(uf("status", lastResponse)) ==>
 //@             old(lot.state).lastSeqID == old(lot.state.lastSeqID) && old(lot.state).lastResponse == old(lot.state.lastResponse)
+
+// Removing a client confirmation record takes the client's open files and
+// locks down only when it is the record the client was confirmed with: a
+// stale or not yet confirmed record (a retried SETCLIENTID) expiring must not
+// close the files of the live, confirmed incarnation (C18, C20). When it is
+// the confirmed record, every open-owner is removed.
+//@ func (*clientConfirmationState).remove
+//@   props C18 C20
+//@   loop 0 entry only-the-confirmed-record-takes-the-client-state-down: confirmedClient != nil && confirmedClient.confirmation == ccs
+//@   loop 0 exhaustive
+//@   ensures an-unconfirmed-record-leaves-the-confirmed-state-alone:
+//@             old(ccs.client.confirmed) != nil && old(ccs.client.confirmed.confirmation) != ccs ==> old(ccs.client).confirmed == old(ccs.client.confirmed)
